@@ -89,6 +89,12 @@ def _starts_with(m, args, raw):
             return s.text.startswith(p.text)
         hits = [i for i, w in enumerate(s.vocab) if w.startswith(p.text)]
         return z3.Or([s.sym == i for i in hits]) if hits else False
+    if isinstance(p, list) and all(isinstance(c, int) for c in p):       # [char; N]: any of these characters
+        firsts = tuple(chr(c) for c in p)
+        if s.sym is None:
+            return s.text.startswith(firsts)
+        hits = [i for i, w in enumerate(s.vocab) if w.startswith(firsts)]
+        return z3.Or([s.sym == i for i in hits]) if hits else False
     raise Unsupported("starts_with pattern %r" % (p,))
 
 
